@@ -71,6 +71,9 @@ def triple_sub(chk, rng, w, wid, plan=None):
                                        ["l", [V("a"), V("b"), V("c")] +
                                         extra]]})
     steps.append({"k": "extra", "e": ["l", extra]})
+    for fn in ("min", "max"):
+        steps.append({"k": fn, "e": ["c", ["g", "builtins:" + fn],
+                                     [["l", [V("a"), V("b"), V("c")]]]]})
 
     def judge(obs):
         if not obs or "a" not in obs:
@@ -119,6 +122,18 @@ def triple_sub(chk, rng, w, wid, plan=None):
                 bad.append("sorted() output is not non-decreasing: %s" %
                            [str(x) for x in seq])
             chk.count("sorted lists")
+        for fn, pick in (("min", min), ("max", max)):
+            r = obs.get(fn, {})
+            want = pick(rv)
+            # the built-ins return the first extremal operand
+            first = qs[rv.index(want)]
+            if r.get("k") != "Q" or w.refval(val(r), r["u"]) != want:
+                bad.append("%s(a, b, c) is %s, reference values %s" %
+                           (fn, brief(r), [str(x) for x in rv]))
+            elif (r["u"], r["a"]) != (first["u"], first["a"]):
+                bad.append("%s(a, b, c) is %s, the first extremal operand "
+                           "is %s" % (fn, brief(r), brief(first)))
+            chk.count("min / max over a triple")
         if bad:
             wit = dict(obs={k: obs[k] for k in list(names) + ["sorted"]},
                        steps=steps[:3], world=wid, problems=bad[:10])
